@@ -288,7 +288,10 @@ pub fn parse_file_internal(context: &ParseContext) -> Result<(), Error> {
 #[derive(Clone, Copy, PartialEq, Eq, Debug)]
 pub enum NextItem {
     NewLine,
+    /// Skip to the next branch of the conditional block (.elif, .else) or to its .endif
     EndIf,
+    /// Skip to the .endif of the conditional block, a branch of it was already assembled
+    EndIfAll,
     EndMacro,
     EndFile,
 }
@@ -297,8 +300,10 @@ fn skip<'a>(
     iter: &mut dyn Iterator<Item = (usize, &'a str)>,
     context: &ParseContext,
     ni: NextItem,
+    pending_elif: &mut bool,
 ) -> Option<(usize, &'a str)> {
     let mut scoup_count = 0;
+    *pending_elif = false;
     match ni {
         NextItem::NewLine => iter.next(),
         NextItem::EndFile => None,
@@ -325,7 +330,7 @@ fn skip<'a>(
                 while let Some((num, line)) = iter.next() {
                     if let Ok(item) = document::line(line) {
                         if let Document::DirectiveLine(_, directive, _) = item {
-                            if other == NextItem::EndIf {
+                            if other == NextItem::EndIf || other == NextItem::EndIfAll {
                                 if directive == Directive::If
                                     || directive == Directive::IfDef
                                     || directive == Directive::IfNDef
@@ -336,7 +341,13 @@ fn skip<'a>(
                                     || directive == Directive::ElIf
                                 {
                                     if scoup_count == 0 {
+                                        if other == NextItem::EndIfAll
+                                            && directive != Directive::Endif
+                                        {
+                                            continue;
+                                        }
                                         ret = if directive == Directive::ElIf {
+                                            *pending_elif = true;
                                             Some((num, line))
                                         } else {
                                             iter.next()
@@ -370,8 +381,11 @@ pub fn parse_iter<'a>(
 ) -> Result<(), Error> {
     let mut next_item = NextItem::NewLine;
 
+    // the line got from skip() is an .elif whose condition decides, no branch was assembled before it
+    let mut pending_elif = false;
+
     loop {
-        if let Some((line_num, line)) = skip(iter, context, next_item) {
+        if let Some((line_num, line)) = skip(iter, context, next_item, &mut pending_elif) {
             next_item = NextItem::NewLine; // clear conditional flag to typical state
             let line_num = line_num + 1;
             let parsed_item = document::line(line);
@@ -403,8 +417,14 @@ pub fn parse_iter<'a>(
                                 ));
                             }
                         }
-                        let item = d.parse(&d_op_args, &context, CodePoint { line_num, num: 2 })?;
-                        next_item = item;
+                        if d == Directive::ElIf && !pending_elif {
+                            // a branch before this .elif was assembled, the rest of the block is skipped
+                            next_item = NextItem::EndIfAll;
+                        } else {
+                            let item =
+                                d.parse(&d_op_args, &context, CodePoint { line_num, num: 2 })?;
+                            next_item = item;
+                        }
                     }
                     Document::EmptyLine => {}
                     _ => {}
